@@ -4,6 +4,7 @@ package main
 import (
 	"bytes"
 	"fmt"
+	"io"
 	"strings"
 	"sync"
 
@@ -192,6 +193,11 @@ func runOne(c *mon.C, shapes []gen.Shape, side ref.Side, ext bool, b bad, withTa
 		// (the size limit is a resource bound of its own: it holds with the RFC header checks switched off too)
 		entries = []string{"reader", "reader-skipcheck"}
 	}
+	if maxFrame == 0 {
+		// a deadline-driven read loop: the read that would deliver the first byte of the offending frame times out
+		// once (nothing consumed), the consumer calls again
+		entries = append(append([]string(nil), entries...), "reader-retry")
+	}
 	if ext {
 		// "plain or extended": an extended reader is one that has negotiated extensions, and those see every
 		// header (after the RFC check) before the frame is delivered
@@ -217,6 +223,9 @@ func runOne(c *mon.C, shapes []gen.Shape, side ref.Side, ext bool, b bad, withTa
 		if entry == "reader-ctlhandler" {
 			o.Entry, o.Intermediate, o.CheckUTF8 = "reader", 3, true
 		}
+		if entry == "reader-retry" {
+			o.Entry, o.Retry = "reader", true
+		}
 		if entry == "reader-discard" {
 			// every message, the open one included, is skipped with Discard
 			// after reading 0 or 1 of its bytes
@@ -234,7 +243,11 @@ func runOne(c *mon.C, shapes []gen.Shape, side ref.Side, ext bool, b bad, withTa
 			o.Buf = []int{1, 3, 64, 4096}[(c.I+pi+ei)%4]
 			c.Count(1)
 			ch := xport.NewChunker(stream, plan)
-			obs := drive.Run(ch, o)
+			var src io.Reader = ch
+			if o.Retry {
+				src = &xport.Transient{R: ch, At: len(pstream), Err: xport.ErrTimeout}
+			}
+			obs := drive.Run(src, o)
 			det := func() map[string]interface{} {
 				return map[string]interface{}{"prefix": gen.ShapesKey(shapes), "offending": b.name, "offending_header": fh.String(), "side": side, "extended": ext, "fragmented_before": frag,
 					"tail": withTail, "entry": entry, "plan": plan.String(), "buf": o.Buf, "max_frame_size": maxFrame,
